@@ -742,3 +742,25 @@ package kafka
 //@   ensures msacct(r)
 //@   ensures old(r.readerStack.count) > 0 ==> err == nil && r.lengthRemain == old(r.lengthRemain) && r.readerStack.count == old(r.readerStack.count) && r.readerStack.remain == old(r.readerStack.remain)
 //@   ensures err == nil && old(r.readerStack.count) <= 0 && r.readerStack.header.magic == 2 ==> r.readerStack.count == int(r.readerStack.header.v2.count) && r.lengthRemain == int(r.readerStack.header.length) - 49
+//@   ensures err == nil ==> r.readerStack.count != 0
+
+// readMessageV2 (record batches).  C17: whatever happens - success, a cut stream, a failing decompressor - the bytes taken from
+// the reader of the stack in use at entry equal the budget charged to that stack, so the enclosing frame can still be drained.
+// C02: lengthRemain (the bytes the batch still announces, used to tell a complete batch from one cut at MaxBytes) is charged
+// only for a record that was delivered; an error leaves it untouched.
+//@ func (*messageSetReader).readMessageV2
+//@   requires msok(r) && r.decompressed != nil
+//@   option noframe
+//@   modifies heap
+//@   let S0 = old(r.readerStack)
+//@   assume the decompressor draws its input only from the LimitedReader it was given, which draws from the stack's reader: what ReadFrom took from the stream is exactly what the LimitedReader's N lost; errors of the decompressor or the connection never wrap the package-private errShortRead
+//@   callsite (*Buffer).ReadFrom modifies limitReader.N, r.readerStack.reader.$rpos
+//@   callsite (*Buffer).ReadFrom ensures 0 <= limitReader.N && limitReader.N <= old(limitReader.N) && r.readerStack.reader.$rpos == old(r.readerStack.reader.$rpos) + (old(limitReader.N) - limitReader.N)
+//@   callsite (*Buffer).ReadFrom ensures !spec.is(result1, errShortRead)
+//@   ensures err == nil || spec.is(err, errShortRead) ==> S0.remain >= 0
+//@   ensures err == nil || spec.is(err, errShortRead) ==> S0.reader == old(r.readerStack.reader)
+//@   ensures err == nil || spec.is(err, errShortRead) ==> S0.reader.$rpos == old(r.readerStack.reader.$rpos) + (old(r.readerStack.remain) - S0.remain)
+//@   ensures err != nil && old(r.readerStack.count) > 0 ==> r.lengthRemain == old(r.lengthRemain)
+//@   loop 0 invariant err == nil && msok(r) && r.readerStack.count != 0 && (r.readerStack == S0 || r.readerStack.reader != S0.reader)
+//@   loop 0 invariant S0.remain >= 0 && S0.reader == old(r.readerStack.reader) && S0.reader.$rpos == old(r.readerStack.reader.$rpos) + (old(r.readerStack.remain) - S0.remain)
+//@   loop 0 invariant old(r.readerStack.count) > 0 ==> r.lengthRemain == old(r.lengthRemain)
